@@ -13,6 +13,7 @@ Sub-checks
 The oracle is a list-of-records filter written with plain python (`_sat` per cell, `selected(i)` per row); it never
 calls inc / exc / _row_check / is_nan.
 """
+import functools
 import itertools
 import json
 import math
@@ -25,7 +26,7 @@ from pv.core import Sub, EnumSub, Violation, call, call_or, short
 from pv.codec import build, Env, token, vtoken, is_nan_spec
 
 ASSUMPTIONS = [
-    'cells are None, ints (also beyond 2**53), python floats incl. +-inf and -0.0, float NaN objects (2 identities), strings (also format directives like %s), and - one number in several raw types - '
+    'cells are None, ints (also beyond 2**53), python floats incl. +-inf and -0.0 and floats that differ from one another (or from an int) by less than numpy.isclose\'s tolerance, float NaN objects (2 identities), strings (also format directives like %s), and - one number in several raw types - '
     'numpy int64 / float64 scalars of small value and numpy\'s float64 NaN, as in the quantifier (no bools, no dates)',
     'numpy int64 scalars beyond 2**53 are not used: numpy compares them with floats after rounding where python compares exactly, so "the cell equals the value" would depend on the operand order',
     'pyg_base.is_nan counts +-inf as NaN by design and the statement does not say whether an infinite cell satisfies a NaN condition: a row whose fate hangs on that '
@@ -33,23 +34,28 @@ ASSUMPTIONS = [
     'a scalar +-inf is never used as a condition value (the library reads it as a NaN condition), only inside lists',
     'column names come from {a,ab,b,ba,c,k} (nested names on purpose): never a dictable/Dict method, a constructor parameter (data, columns) or a keyword of one_or_none (exc, find)',
     'a condition is a scalar value (int / finite float / str / numpy int64 or float64), a list of admissible non-NaN values (0-3 of them, 64+, exactly as many as the table has rows, or the list OBJECT of one of '
-    'the table\'s own NaN-free columns; None allowed in the list), None, a NaN object (python float or numpy float64), or a compiled regex; "value" means python equality (cell is v or cell == v, so 1 matches 1.0 and 0 matches -0.0, 2**53 + 1 does not match float(2**53))',
+    'the table\'s own NaN-free columns; None allowed in the list), None, a NaN object (python float or numpy float64), or a compiled regex; "value" means python equality (cell is v or cell == v, so 1 matches 1.0 and 0 matches -0.0, 2**53 + 1 does not match float(2**53), 1.0 + 1e-9 does not match 1.0 - the statement has no tolerance)',
     'tuples / ranges / sets are not used as "lists" of admissible values: the statement names a list, and whether a tuple is one value or several is the library\'s convention, not the statement\'s',
     'lists of admissible values never contain NaN (membership of a NaN in a list is identity based in python; the statement has NaN as a condition of its own)',
     'a conjunction has at most one condition per column (a dict filter and a keyword on the same column overwrite each other rather than conjoin); the one exception is the SAME dict object passed twice '
     '(inc(k, k)): overwriting and conjoining a condition with itself are the same thing, it must select as inc(k) does',
     'callables are total, pure predicates over parameters that are columns of the table, written as plain, keyword-only or default-carrying parameters (a column\'s value beats the declared default), optionally with *rest / **kw '
     'which the predicate ignores (the statement does not say what they receive); ONE extra parameter z_ that is no column must keep its declared default (a container as long as the table, keyed like it, equal to a column, or empty); '
+    'a functools.partial of such a function is a callable too: its remaining named parameters are the columns it is a predicate on, and the parameter it has bound - z_ by keyword, or the first parameter positionally, '
+    'which may then be NAMED like a column of the table, since it is no longer a parameter of the callable - must keep the bound object (a partial whose KEYWORD is named like a column is not generated: python lets the call override it, '
+    'the statement does not say which wins); '
     'a callable without any named parameter (f(*a, **kw)) is not a predicate on named columns and is not generated; their verdict is read by truthiness (bools, 0/1, 0/2, None/\'x\', \'\'/\'s\', []/[0], or a mix of these from row to row) as `if f(**row)` does; exactly ONE callable and no keyword filter next to it (exc(f, g) and callable+keyword mixes are outside the statement)',
     'the set of columns is compared, not their order (dictable re-orders columns alphabetically when it rebuilds a table from rows)',
     'rows are compared cell by cell with a type-strict token in which every NaN is one token (1 and 1.0 differ, NaN equals NaN)',
     'find_<col>: when two or more selected rows hold NaN in <col> and nothing else, both "returns NaN" and "raises ValueError" are accepted (whether two NaNs are one value is not decided by the statement)',
-    'find_<col> values are compared by python equality (1 and 1.0 are one value)',
+    'find_<col> values are compared by python equality (1 and 1.0 are one value; 1.0 and 1.0 + 1e-9 are two, so find_ must raise)',
     'results must be new table objects, never the operand itself, even when the selection keeps every row (inc and exc both start from self.copy(); a result that IS the table would let later edits of the result change the table); sharing of the column list objects is not checked',
     'large tables (64-200 rows, thorough up to 500) are short per-column patterns repeated, i.e. few distinct values and many duplicate rows',
-    'one_or_none is checked only as an observation point of the rows inc selects, following its docstring: None for no row, the row for one, ValueError for several',
+    'one_or_none is checked only as an observation point of the rows inc selects, following its docstring: None for no row, the row for one, ValueError for several; '
+    'its own defaults exc = None / find = None passed explicitly must mean what leaving them out means',
     'condition containers (dicts, lists) are the caller\'s: a later call that gets the same object is judged by what the caller wrote into it; that the library leaves an object alone which is never used again is not demanded',
-    'session: between two calls the table is changed only through table[col] = list of the table\'s length (a column replaced or added); cells are not edited in place through the column lists, columns are not deleted; '
+    'session: between two calls the table is changed through table[col] = list of the table\'s length (a column replaced or added) or through ONE cell written into the column list the table hands out '
+    '(table[col][i] = v, which also changes every other column that is that list object); columns are not deleted; '
     'every call is judged by the table\'s content at that moment (the statement is about one call; a table that was updated is a table)',
     'two columns of a table may be ONE list object (dictable keeps the lists it is given), and a condition may be the list object of a column of the table itself',
 ]
@@ -96,6 +102,18 @@ def _is_nan(x):
 
 def _is_inf(x):
     return isinstance(x, float) and x in (float('inf'), float('-inf'))
+
+
+def _close(x, y):
+    """two plain numbers (below 2**53) that are NOT equal although a comparison with tolerance (numpy.isclose's defaults, rtol 1e-5 / atol 1e-8) takes them for equal"""
+    for v in (x, y):
+        if isinstance(v, bool) or not isinstance(v, (int, float)) or v != v or abs(v) >= 2 ** 53:
+            return False
+    return bool(x != y and abs(x - y) <= 1e-8 + 1e-5 * min(abs(x), abs(y)))
+
+
+def _falsy(v):
+    return v is None or (not _is_nan(v) and not v)
 
 
 def _sat(cell, cond, env, inf_nan=None):
@@ -203,11 +221,17 @@ def _encode(ret, truth, vals):
 
 # the shapes a user's predicate over the columns `args` may have (kwargs_support hands a function the columns it NAMES: positional-or-keyword and keyword-only
 # parameters; *rest / **kw receive whatever the library likes and are ignored by the predicate; a parameter that is no column keeps its declared default)
-_SHAPES = ['plain', 'kwonly', 'varkw', 'varargs', 'first_then_kwonly', 'default_extra', 'default_cols']
+_SHAPES = ['plain', 'kwonly', 'varkw', 'varargs', 'first_then_kwonly', 'default_extra', 'default_cols', 'partial_kw', 'partial_pos']
+# partial_kw:  functools.partial(lambda a, b, z_: .., z_ = <container>)    - an object carrying options: rebuilding it from .func loses the bound keyword
+# partial_pos: functools.partial(lambda <bound>, a, b: .., <container>)    - <bound> is z_ or the name of a column of the table that is NOT one of the predicate's columns
 
 
-def _signature(shape, args):
+def _signature(shape, args, bound='z_'):
     a = ', '.join(args)
+    if shape == 'partial_kw':
+        return a + ', z_'
+    if shape == 'partial_pos':
+        return bound + ', ' + a
     if shape == 'plain':
         return a
     if shape == 'kwonly':
@@ -229,20 +253,34 @@ def _bad_default(z):
     raise AssertionError('the predicate was called with z_ = %s although the table has no column z_ (the parameter must keep its declared default)' % short(z, 80))
 
 
-def _as_callable(pred, args, shape='plain', dflt=None, factories=None):
+def _bad_bound(z):
+    raise AssertionError('the predicate was called with %s in the parameter that functools.partial had bound to another object' % short(z, 80))
+
+
+def _code(f):
+    """the code object of a predicate (of the function inside a functools.partial)"""
+    return getattr(f, 'func', f).__code__
+
+
+def _as_callable(pred, args, shape='plain', dflt=None, factories=None, bound='z_'):
     """
     a lambda whose parameter names are the columns, as a user would write it.
     factories: {(shape, args): factory} of a session - all its predicates of one shape over the same columns are then made by ONE factory, i.e. share one code
     object; outside sessions every predicate has a code object of its own (so that a case never depends on the cases run before it)
     """
     factories = {} if factories is None else factories
-    key = (shape, tuple(args))
+    key = (shape, tuple(args), bound)
     if key not in factories:
         body = '_p(%s)' % ', '.join(args)
         if shape == 'default_extra':
             body = '%s if z_ is _d else _bad(z_)' % body
-        factories[key] = eval('lambda _p, _d, _bad: (lambda %s: %s)' % (_signature(shape, args), body))
-    return factories[key](pred, dflt, _bad_default)
+        if shape.startswith('partial'):
+            name = 'z_' if shape == 'partial_kw' else bound
+            inner = 'lambda %s: (%s if %s is _d else _bad(%s))' % (_signature(shape, args, bound), body, name, name)
+            factories[key] = eval('lambda _p, _d, _bad: _partial(%s, %s)' % (inner, 'z_=_d' if shape == 'partial_kw' else '_d'), {'_partial': functools.partial})
+        else:
+            factories[key] = eval('lambda _p, _d, _bad: (lambda %s: %s)' % (_signature(shape, args), body))
+    return factories[key](pred, dflt, _bad_bound if shape.startswith('partial') else _bad_default)
 
 
 _DEFAULTS = ['tuple_n', 'list_n', 'dict_cols', 'column', 'empty']
@@ -428,18 +466,23 @@ def _condition(spec_cond, data, env, table=None, store=None):
             pred = _predicate(spec_cond, data)
             ret = spec_cond.get('ret', 'bool')
             cols = list(data.keys())
-            dflt = _default_container(spec_cond.get('dflt', 'empty'), data, cols, len(data[cols[0]])) if shape.startswith('default') else None
+            dflt = _default_container(spec_cond.get('dflt', 'empty'), data, cols, len(data[cols[0]])) if shape.startswith(('default', 'partial')) else None
             f = _as_callable(pred if ret == 'bool' else (lambda *vals: _encode(ret, bool(pred(*vals)), vals)), args, shape, dflt,
-                             None if store is None else store.setdefault('_factories', {}))
+                             None if store is None else store.setdefault('_factories', {}), spec_cond.get('bound', 'z_'))
             if store is not None:
                 store[skey] = f, pred
         if store is not None:
             store['_uses'][skey] = store['_uses'].get(skey, 0) + 1
         ret = spec_cond.get('ret', 'bool')
-        desc = _T('(lambda %s: %s%s)' % (_signature(shape, args).replace('_d', '<%s>' % spec_cond.get('dflt', 'empty')),
+        sig = _signature(shape, args, spec_cond.get('bound', 'z_')).replace('_d', '<%s>' % spec_cond.get('dflt', 'empty'))
+        if shape.startswith('partial'):
+            head, tail = '(functools.partial(lambda %s' % sig, ', %s<%s>))' % ('z_ = ' if shape == 'partial_kw' else '', spec_cond.get('dflt', 'empty'))
+        else:
+            head, tail = '(lambda %s' % sig, ')'
+        desc = _T('%s: %s%s%s' % (head,
                                         spec_cond['fn'] if spec_cond['fn'] != 'table' else 'true exactly on the values of rows %s' % spec_cond['true_rows'],
                                         '' if ret == 'bool' else ', verdict returned as %s' % (
-                                            'a result kind that varies by row among %s' % _MIXED if ret == 'mixed' else '%r / %r' % (_RESULTS[ret][0](), _RESULTS[ret][1]()))))
+                                            'a result kind that varies by row among %s' % _MIXED if ret == 'mixed' else '%r / %r' % (_RESULTS[ret][0](), _RESULTS[ret][1]())), tail))
 
         def caller(table, method, extra=None):
             return getattr(table, method)(f, **(extra or {}))
@@ -590,6 +633,9 @@ def run_partition(spec):
                     cls.append('equal_not_identical')
                 if any(y is None or (not y and not _is_nan(y)) for y in vs) or (k != 'val' and not vs):
                     cls.append('falsy_condition_value')
+                # values that differ by less than a tolerance: a cell python equality rejects, an np.isclose / rounding comparison would admit
+                if any(any(_close(x, y) for y in vs[:200]) and not any(x is y or x == y for y in vs) for x in data[c][:200]):
+                    cls.append('near_miss_within_tolerance')
                 # one number in several raw types (python int / float, numpy int64 / float64) among the matching cells and the admissible values
                 hit = [y for y in vs[:200] if y is not None and any(x is y or x == y for x in data[c][:200])]
                 hit += [x for x in data[c][:200] if any(x is y or x == y for y in hit)]
@@ -642,6 +688,10 @@ def run_partition(spec):
             cls.append('function_shape_not_plain')
         if shape.startswith('default'):
             cls.append('default=' + spec['cond'].get('dflt', 'empty'))
+        if shape.startswith('partial'):
+            cls.append('predicate_is_a_functools_partial')          # an object carrying options (appendix 24)
+            if shape == 'partial_pos' and spec['cond'].get('bound', 'z_') in cols:
+                cls.append('partial_bound_parameter_is_named_like_a_column')
         if spec['cond'].get('ret', 'bool') != 'bool':
             cls.append('nonbool_result')
     if any(dict.__getitem__(d, a) is dict.__getitem__(d, b) for a, b in spec.get('share') or []):
@@ -757,7 +807,13 @@ def run_find(spec):
         kw = dict(extra)
         if find is not None:
             kw['find'] = find
-        w1 = _T('dictable(%s).one_or_none%s%s%s' % (tdesc, desc, edesc, '' if find is None else ' find = %s' % find))
+        if spec.get('explicit_defaults'):        # the parameters' own defaults, written out by the caller
+            kw.setdefault('exc', None)
+            kw.setdefault('find', None)
+            edesc_ = edesc + ' ' + ', '.join('%s = None' % k for k in ('exc', 'find') if kw[k] is None)
+        else:
+            edesc_ = edesc
+        w1 = _T('dictable(%s).one_or_none%s%s%s' % (tdesc, desc, edesc_, '' if find is None else ' find = %s' % find))
         ok1, res1 = call_or(w1, (ValueError,), caller, d, 'one_or_none', kw)
         _unchanged(_T('one_or_none%s' % desc), d, snap)
         ones.append((w1, ok1, res1, find))
@@ -782,6 +838,15 @@ def run_find(spec):
     cls.append(label)
     if label == 'multiple_values' and any(isinstance(data[col][i], str) and '%' in data[col][i] for i in sel):
         cls.append('percent_sign_in_multiple_values')
+    found = [data[col][i] for i in sel]
+    if label == 'multiple_values' and all(x is y or x == y or _close(x, y) for x in found[:200] for y in found[:200]):
+        cls.append('found_values_differ_only_within_tolerance')       # two values all the same: a de-duplication through rounding / isclose would return one of them
+    if label in ('single_row', 'unique_from_many') and _falsy(found[0]):
+        cls.append('found_value_is_falsy')                          # 0 / 0.0 / '' / None is the value found, not "nothing found"
+    if len(sel1) == 1 and _falsy(data[col][sel1[0]]):
+        cls.append('one_or_none_found_value_is_falsy')
+    if spec.get('explicit_defaults'):
+        cls.append('one_or_none_defaults_passed_explicitly')
     if undecided:
         cls.append('inf_cell_under_nan_condition')
     cls.append('one_or_none=%s' % ('none' if not sel1 else 'row' if len(sel1) == 1 else 'several'))
@@ -921,7 +986,7 @@ def run_session(spec):
             if kindx == 'callable':
                 if fx is fy:
                     labels.add('callable_object_used_in_several_calls')
-                elif fx.__code__ is fy.__code__:
+                elif _code(fx) is _code(fy):
                     labels.add('callables_made_by_one_factory')
                     if opx == opy and expx != expy:
                         labels.add('callables_made_by_one_factory:select_different_rows')
@@ -955,6 +1020,8 @@ _NAN = st.integers(0, 1).map(lambda k: ['nan', k])
 _CELL = st.one_of(st.integers(0, 3), _STRS, st.none(), _FLOATS, _NAN, _INTS)
 _VALUE = st.one_of(_INTS, _FLOATS, _STRS, st.sampled_from([1000, 'aba']))            # a scalar condition value (None / NaN are conditions of their own)
 
+_NEAR_PAIRS = [[1.0, 1.0 + 1e-9], [1, 1.000001], [0.0, 1e-9], [2.5, 2.5 + 1e-7], [1000, 1000.001], [0, -1e-9], [0.1 + 0.2, 0.3]]
+
 # column flavours: small pools make equal cells, full matches and empty matches frequent
 _FLAVOURS = {
     'mixed': _CELL,
@@ -972,9 +1039,11 @@ _FLAVOURS = {
     'bignum': st.one_of(st.sampled_from([2 ** 53, 2 ** 53 + 1, float(2 ** 53)]), st.sampled_from([2 ** 53, 2 ** 53 + 1, float(2 ** 53), -0.0, 0, 0.0, 2 ** 53 + 2, -2 ** 53 - 1]), _NAN),
     # one number in several raw types: python int / float, numpy int64 / float64 (a float subclass), numpy NaN
     'numpy': st.sampled_from([1, 1.0, ['np', 'float64', 1.0], ['np', 'int64', 1], 2.5, ['np', 'float64', 2.5], ['np', 'int64', 2], 2, ['nan', -1], ['nan', 0], None]),
-    'pct': st.sampled_from(['%s', '%d', '100%', 'a', '%(a)s', '%']),         # strings that are format directives (find_ builds its messages with %)
+    'pct': st.sampled_from(['%s', '%d', '100%', 'a', '%(a)s', '%']),
+    # values that differ by less than a tolerance (rtol 1e-5 / atol 1e-8): equal for np.isclose or after rounding, different for python
+    'near': st.sampled_from([x for pair in _NEAR_PAIRS for x in pair]),         # strings that are format directives (find_ builds its messages with %)
 }
-_FLAVOUR = st.sampled_from(['mixed', 'mixed', 'const', 'bignum'] + sorted(_FLAVOURS))
+_FLAVOUR = st.sampled_from(['mixed', 'mixed', 'const', 'bignum', 'near'] + sorted(_FLAVOURS))
 
 
 @st.composite
@@ -1055,6 +1124,11 @@ def _column_cond(draw, cells, n=None, others=None):
         # a column with ints beyond 2**53: the neighbours that are different ints but the same float64
         big = draw(st.lists(st.sampled_from([2 ** 53, 2 ** 53 + 1, float(2 ** 53), 2 ** 53 + 2, -2 ** 53 - 1, -float(2 ** 53)]), min_size=1, max_size=2, unique=True))
         return ['val', big[0]] if len(big) == 1 and draw(st.booleans()) else ['list', big]
+    near = [v for v in present if any(_close(v, o) for o in present)]
+    if near and draw(st.integers(0, 9999)) % 2 == 0:
+        # a column holding two numbers that differ by less than a tolerance: one of the pair (sometimes both) as the value / in the list of admissible values
+        vs = draw(st.lists(st.sampled_from(near), min_size=1, max_size=2, unique_by=repr))
+        return ['val', vs[0]] if len(vs) == 1 and draw(st.booleans()) else ['list', vs]
     kinds = ['val', 'val', 'list', 'list'] if present else []
     if has_none:
         kinds += ['none', 'none']
@@ -1162,21 +1236,25 @@ def _callable_cond(draw, table):
         nargs = draw(st.integers(1, min(3, len(cols))))
         args = list(draw(st.permutations(cols))[:nargs])
         true_rows = [i for i, b in enumerate(draw(st.lists(st.sampled_from([True, False]), min_size=n, max_size=n))) if b]
-        return _fn_shape(draw, dict(kind='callable', fn='table', args=args, true_rows=sorted(true_rows), ret=ret))
+        return _fn_shape(draw, dict(kind='callable', fn='table', args=args, true_rows=sorted(true_rows), ret=ret), cols)
     nargs = _CATALOGUE[fn][0]
     if nargs > len(cols):
         fn = draw(st.sampled_from(['is_none', 'is_nan', 'is_str', 'num_pos']))
         nargs = 1
     args = list(draw(st.permutations(cols))[:nargs])
-    return _fn_shape(draw, dict(kind='callable', fn=fn, args=args, ret=ret))
+    return _fn_shape(draw, dict(kind='callable', fn=fn, args=args, ret=ret), cols)
 
 
-def _fn_shape(draw, cond):
-    """about 45% of the predicates are not plain `lambda a, b:` functions: keyword-only parameters, *rest, **kw, container defaults"""
+def _fn_shape(draw, cond, cols=()):
+    """about half of the predicates are not plain `lambda a, b:` functions: keyword-only parameters, *rest, **kw, container defaults, functools.partial objects"""
     shape = draw(st.sampled_from(['plain'] * 7 + _SHAPES[1:]))
     cond['shape'] = shape
-    if shape.startswith('default'):
+    if shape.startswith(('default', 'partial')):
         cond['dflt'] = draw(st.sampled_from(_DEFAULTS))
+    if shape == 'partial_pos':
+        # the positionally bound first parameter is, where the table has one, named like a column the predicate is NOT about (2 cases in 3)
+        free = [c for c in cols if c not in cond['args']]
+        cond['bound'] = free[draw(st.integers(0, 9999)) % len(free)] if free and draw(st.integers(0, 2)) else 'z_'
     return cond
 
 
@@ -1201,8 +1279,15 @@ def _predicate_case(draw, tier):
 @st.composite
 def _find_case(draw, tier):
     t = draw(_table(*_sizes(tier)))
-    t['cond'] = draw(st.one_of(_filters_cond(t, allow_none_form=False), _filters_cond(t, allow_none_form=False), _callable_cond(t)))
     t['col'] = draw(st.sampled_from(t['cols']))
+    if draw(st.sampled_from([True] + [False] * 8)):
+        # the column searched holds two numbers that differ by less than a tolerance, and nothing else: selected together they are "more than one" value
+        pair = _NEAR_PAIRS[draw(st.integers(0, 9999)) % len(_NEAR_PAIRS)]
+        m = len(t['data'][t['col']])
+        cells = [pair[b] for b in draw(st.lists(st.integers(0, 1), min_size=m, max_size=m))]
+        for c in [t['col']] + [x for pr in t.get('share') or [] if t['col'] in pr for x in pr]:
+            t['data'][c] = list(cells)
+    t['cond'] = draw(st.one_of(_filters_cond(t, allow_none_form=False), _filters_cond(t, allow_none_form=False), _callable_cond(t)))
     if draw(st.integers(0, 3)) == 0:
         ec = draw(st.sampled_from(t['cols']))
         kind, payload = draw(_column_cond(t['data'][ec], _nrows(t)))
@@ -1211,6 +1296,7 @@ def _find_case(draw, tier):
     else:
         t['exc'] = None
     t['one_find'] = True
+    t['explicit_defaults'] = draw(st.sampled_from([False] * 7 + [True]))
     return t
 
 
@@ -1332,6 +1418,7 @@ SUBS = [
         rule='tables of 0-8 rows x 1-3 columns (thorough 0-12 x 1-4) of None/ints/floats/NaN objects/strings, about 8% of them LARGE (64/65/100/128/200 rows, thorough also 257/500: '
              'short column patterns repeated), column names nested in one another, +-inf cells in about 17% of the tables (a row whose infinite cell meets a NaN condition must only be in exactly one of inc / exc); a conjunction of 0-3 column conditions '
              '(value, list of admissible values, None, NaN, compiled regex) passed as keywords, one dict, dict + keywords, several dicts, or the same dict object twice. '
+             'Round-5/6 classes: compiled patterns carrying flags; columns of numbers that differ by less than numpy.isclose\'s tolerance (1.0 / 1.0 + 1e-9, 1000 / 1000.001, 0.0 / 1e-9), one of such a pair as the value or in the list: the other must be rejected. '
              'Round-4 classes: numbers-only columns with ints beyond 2**53 next to the float they round to, -0.0 and NaN; one number as python int / float and numpy int64 / float64 (cells and condition values, numpy NaN conditions); '
              'two columns that are ONE list object (about 1 table in 8); lists of admissible values of exactly the table\'s length, and the list object of one of the table\'s own columns as the condition; '
              'oracle: plain list-of-records filter; inc = satisfying rows in order, exc = the others in order, both with all columns, lengths add up, '
@@ -1348,25 +1435,33 @@ SUBS = [
                       'row_satisfies_some_not_all_across_containers': 0.03, 'regex_matches_str_of_nonstr_cell': 0.015,
                       'inf_cell': 0.08, 'inf_cell_under_nan_condition': 0.03,
                       # round-4 classes (appendix 11-20)
-                      'cond_is_a_column_list_of_the_table': 0.006, 'cond_is_the_conditioned_column_itself': 0.003, 'list_as_long_as_the_table': 0.015, 'list_as_long_as_the_table:row_aligned_reading_differs': 0.006, 'numpy_scalar': 0.04, 'one_value_in_several_raw_types': 0.025, 'numbers_only_column': 0.08, 'int_beyond_2**53_next_to_float': 0.01, 'int_beyond_2**53:unequal_but_equal_as_floats': 0.007, 'negative_zero': 0.003, 'condition_dict_reused:form=dict': 0.02, 'condition_dict_reused:form=dicts': 0.015, 'condition_dict_reused:form=dict_twice': 0.01, 'condition_dict_reused:other_dicts_mattered': 0.007, 'condition_evaluated_after_rows_were_dropped': 0.035, 'two_conditioned_columns_are_one_list': 0.009, 'columns_share_one_list': 0.04, 'form=dict_twice': 0.035}),
+                      'cond_is_a_column_list_of_the_table': 0.006, 'cond_is_the_conditioned_column_itself': 0.003, 'list_as_long_as_the_table': 0.015, 'list_as_long_as_the_table:row_aligned_reading_differs': 0.006, 'numpy_scalar': 0.04, 'one_value_in_several_raw_types': 0.025, 'numbers_only_column': 0.08, 'int_beyond_2**53_next_to_float': 0.01, 'int_beyond_2**53:unequal_but_equal_as_floats': 0.007, 'negative_zero': 0.003, 'condition_dict_reused:form=dict': 0.02, 'condition_dict_reused:form=dicts': 0.015, 'condition_dict_reused:form=dict_twice': 0.01, 'condition_dict_reused:other_dicts_mattered': 0.007, 'condition_evaluated_after_rows_were_dropped': 0.035, 'two_conditioned_columns_are_one_list': 0.009, 'columns_share_one_list': 0.04, 'form=dict_twice': 0.035,
+                      # round-5/6 classes (appendix 21-29)
+                      'near_miss_within_tolerance': 0.008}),
     Sub('predicate', _predicate_case, run_partition, quick=2000, thorough=15000,
         rule='same tables; ONE callable over 1-3 named columns: a catalogue of total predicates (is None, is NaN, is str, > 0, str(a) < str(b), a == b, '
              'constant True / False) or an arbitrary truth table on the rows, written in about 45% of the cases not as `lambda a, b:` but with keyword-only parameters, *rest, **kw, a container default on every (column) parameter, '
-             'or an extra non-column parameter whose container default must stay; in about 40% of the cases the verdict is returned as a truthy / falsy non-bool (0/1, 0/2, None/x, empty/non-empty str or list, or a kind that varies from row to row). oracle: the truth value of the same python predicate applied to the plain records. '
+             'or an extra non-column parameter whose container default must stay, or as a functools.partial that has bound a container to z_ by keyword or to its first parameter positionally (that parameter then often named like a column the predicate is not about); in about 40% of the cases the verdict is returned as a truthy / falsy non-bool (0/1, 0/2, None/x, empty/non-empty str or list, or a kind that varies from row to row). oracle: the truth value of the same python predicate applied to the plain records. '
              'non-trivial = at least one row and (both parts non-empty or all / nothing selected)',
         floor=0.5, class_floors={'both_nonempty': 0.15, 'all': 0.03, 'nothing': 0.05, 'fn=table': 0.2, 'nargs=2': 0.1, 'nonbool_result': 0.25,
                                  'large': 0.025, 'nested_column_names': 0.15, 'noop_selection': 0.3, 'duplicate_rows': 0.25, 'inf_cell': 0.08,
                                  'ret=int01': 0.02, 'ret=int02': 0.02, 'ret=none_x': 0.02, 'ret=str': 0.02, 'ret=list': 0.02, 'ret=mixed': 0.02,
                                  # round-4 classes (appendix 14, 16)
-                                 'function_shape_not_plain': 0.08, 'shape=kwonly': 0.011, 'shape=varkw': 0.011, 'shape=varargs': 0.011, 'shape=first_then_kwonly': 0.011, 'shape=default_extra': 0.011, 'shape=default_cols': 0.011, 'default=tuple_n': 0.004, 'default=list_n': 0.004, 'default=dict_cols': 0.004, 'default=column': 0.004, 'default=empty': 0.004, 'columns_share_one_list': 0.04}),
+                                 'function_shape_not_plain': 0.08, 'shape=kwonly': 0.011, 'shape=varkw': 0.011, 'shape=varargs': 0.011, 'shape=first_then_kwonly': 0.011, 'shape=default_extra': 0.011, 'shape=default_cols': 0.011, 'default=tuple_n': 0.004, 'default=list_n': 0.004, 'default=dict_cols': 0.004, 'default=column': 0.004, 'default=empty': 0.004, 'columns_share_one_list': 0.04,
+                                 # round-5/6 classes (appendix 24)
+                                 'predicate_is_a_functools_partial': 0.025, 'shape=partial_kw': 0.011, 'shape=partial_pos': 0.011, 'partial_bound_parameter_is_named_like_a_column': 0.004}),
     Sub('find', _find_case, run_find, quick=2500, thorough=15000,
         rule='same tables and conditions (filters or one callable, whose verdict is a non-bool truthy / falsy value in about 40% of the callable cases) plus a column: find_<col>(condition) must return the one value held by the selected rows and '
              'raise ValueError when no row or two different values are selected; one_or_none(condition[, exc=][, find=]) must give None / the row / ValueError '
-             'for 0 / 1 / several selected rows. non-trivial = the selection is not a single row',
+             'for 0 / 1 / several selected rows; in about 1 case in 9 the column searched holds just two numbers that differ by less than a tolerance (two values: find_ must raise when both are selected), in about 1 in 8 one_or_none gets its own defaults exc = None, find = None explicitly; '
+             'the value found may be 0 / 0.0 / \'\' / None. non-trivial = the selection is not a single row',
         floor=0.3, class_floors={'none_selected': 0.1, 'multiple_values': 0.1, 'unique_from_many': 0.05, 'single_row': 0.05, 'one_or_none_exc': 0.1,
                                  'nonbool_result': 0.05, 'large': 0.03, 'nested_column_names': 0.15, 'inf_cell_under_nan_condition': 0.03,
                                  # round-4 classes (appendix 13, 14, 16, 17)
-                                 'function_shape_not_plain': 0.03, 'percent_sign_in_found_column': 0.015, 'percent_sign_in_multiple_values': 0.004, 'numpy_scalar_in_found_column': 0.013, 'cond_is_a_column_list_of_the_table': 0.0045, 'form=dict_twice': 0.03}),
+                                 'function_shape_not_plain': 0.03, 'percent_sign_in_found_column': 0.015, 'percent_sign_in_multiple_values': 0.004, 'numpy_scalar_in_found_column': 0.013, 'cond_is_a_column_list_of_the_table': 0.0045, 'form=dict_twice': 0.03,
+                                 # round-5/6 classes (appendix 24, 26, 27, 29)
+                                 'shape=partial_kw': 0.005, 'shape=partial_pos': 0.005, 'one_or_none_defaults_passed_explicitly': 0.03, 'found_values_differ_only_within_tolerance': 0.007,
+                                 'found_value_is_falsy': 0.027, 'one_or_none_found_value_is_falsy': 0.011}),
     Sub('session', _session_case, run_session, quick=1200, thorough=8000,
         rule='same tables; 2-5 steps on ONE table object: inc / exc / find_<col> with a condition, or (between two queries) table[col] = new column, after which the query made before is often made again. '
              'Up to 3 columns have two alternative conditions each and a step conditions a prefix of them (sometimes reversed), so the steps\' conditions are prefixes / extensions / permutations of one another '
